@@ -1,16 +1,16 @@
 CONSTANTS
     Handles = {0, 1, 2}
-    Sizes <- SizesD
-    SealAt <- SealD
+    Sizes <- SizesB
+    SealAt <- SealB
     HdrLen = 2
-    MemBound = 2
-    High = 2
-    Low = 1
-    Accept = {1, 2, 3}
+    MemBound = 1
+    High = 3
+    Low = 0
+    Accept = {1, 2}
     BugDrainWrong = FALSE
     BugLowWaterStrict = FALSE
     BugNoRereg = FALSE
-    BugCloseLeaves = FALSE
+    BugCloseLeaves = TRUE
 SPECIFICATION Spec
 INVARIANTS TypeOK NoLoss WireOK ChanFifo Boundary Bound Throttled RegSync DropsOnlySealed
 PROPERTIES SealTakesAll
